@@ -1462,6 +1462,8 @@ class EdgeAssemblyChanger(GeometryChanger):
             a.clearCache()  # symmetry factors of these assemblies will change since they are now half assems.
             a2 = copy.deepcopy(a)
             a2.makeUnique()
+            # the copy goes to the image of this cell under a 120 degree rotation (see below)
+            a2.rotate(2 * math.pi / 3)
             assembliesOnUpperBoundary.append(a2)
 
         if not assembliesOnUpperBoundary:
